@@ -48,11 +48,19 @@ impl std::fmt::Debug for MockNurse {
 
 impl MockNurse {
     pub fn new(env: &Arc<Env>) -> MockNurse {
-        MockNurse {
+        let n = MockNurse {
             env: Arc::clone(env),
             inner: Arc::new(Mutex::new(NurseInner { tasks: vec![], current: None, now: 0 })),
             allow_fail: env.cfg().allow_fail,
-        }
+        };
+        let w = Arc::downgrade(&n.inner);
+        env.on_cleanup(Box::new(move || {
+            if let Some(i) = w.upgrade() {
+                let t = std::mem::take(&mut i.lock().unwrap_or_else(|e| e.into_inner()).tasks);
+                drop(t);
+            }
+        }));
+        n
     }
 
     fn lock(&self) -> std::sync::MutexGuard<'_, NurseInner> {
@@ -133,6 +141,7 @@ impl Nurse<()> for MockNurse {
         let n = self.lock().tasks.len() + 1;
         let name = format!("T{n}");
         let opts: Vec<&str> = if self.allow_fail { vec!["ok", "Spawn", "Closed"] } else { vec!["ok"] };
+        self.env.register_name("T", &name);
         let c = self.env.decide("spawn", &name, &opts);
         self.env.event("spawn", &name, &c, json!(0));
         let mut g = self.lock();
